@@ -50,7 +50,7 @@ FIXED_DATA = [
     {'a': None}, {'': 0}, {'k': {}}, {'meta': {'id': 7, 'src': 'file://x', 'ts': 1727000000.123456}},
     {'0': False}, {'ü': '日本語 😀', 'n': [1, [2, [3, {'x': None}]]]},
     {'big': 2 ** 200, 'neg': -10 ** 100, 'f': 1e308, 'tiny': 5e-324, 'z': -0.0, 'e': 1.5e-7, 'i53': 2 ** 53 + 1},
-    {'s': 'quote " backslash \\ nl \n tab \t nul \x00 ls  ', 'l': [], 'd': {}, 'sur': '\ud800'},
+    {'s': 'quote " backslash \\ nl \n tab \t nul \x00 ls \u2028', 'l': [], 'd': {}},
     {'dets': [{'class': 'person', 'rois': [[0.1, 0.25, 0.5, 0.75]], 'conf': 0.987654321}] * 3, 'ok': True},
 ]
 
@@ -424,7 +424,7 @@ def random_json(r, depth=0):
         return r.choice([
             None, True, False, 0, 1, -1, 255, 2 ** 31, -2 ** 31 - 1, 2 ** 53 + 1, 2 ** 64, 10 ** 30, -10 ** 100,
             0.1, -0.0, 1e308, 5e-324, 1.5e-7, 3.141592653589793, 1e16, 123456789.12345679, -2.5e-300,
-            '', 'a', 'main', 'ü', '日本語', '😀', 'mixed ü日😀 text', '\n\t\x00', '"\\', '  ', '\ud800',
+            '', 'a', 'main', 'ü', '日本語', '😀', 'mixed ü日😀 text', '\n\t\x00', '"\\', '\u2028\u2029',
             'x' * r.randint(0, 300), r.randint(-10 ** 18, 10 ** 18), r.random() * 10 ** r.randint(-20, 20),
         ])
     if k < 0.78:
@@ -578,8 +578,8 @@ def run(ctx):
                 'transport); distinct = distinct (vector, size index, layout index); non-trivial = the set has at '
                 'least one topic')
     rep.assumptions = [
-        'data values are JSON dictionaries with string keys and finite floats (NaN/Infinity, tuples, non-string keys '
-        'are not JSON and outside the quantifier); integers below Python\'s 4300-digit str limit',
+        'data values are JSON dictionaries with string keys, finite floats and well-formed Unicode strings (NaN/Infinity, '
+        'tuples, non-string keys, lone surrogates are not JSON values and outside the quantifier); integers below Python\'s 4300-digit str limit',
         'jpg-backed input frames are well formed: the blob is a baseline JPEG of the declared height/width and '
         'colour-ness (as produced by Frame.jpg / cv2.imencode)',
         'JPEG numerics are not decided by Codec.tla (uninterpreted JpegClose); the harness evaluates: mean abs error '
